@@ -179,7 +179,7 @@ static void *reader_main(void *arg)
 
 /* ------------------------------------------------------------------ queuers */
 
-static int reg_cycles_enabled, reclaimer_test;
+static int reg_cycles_enabled, reclaimer_test, queuer_registered;
 static const char *phase_of[MAX_Q];
 
 static void *arg_pick(struct vp_rng *r)
@@ -206,13 +206,39 @@ static void check_all_mine_ran(struct owner *w, const char *after)
 			     (unsigned long long) w->nq, (unsigned long long) ninv, after);
 }
 
+/* A queuer may itself be a registered reader (--queuer-registered=1).  defer_rcu(), the
+ * barriers and defer (un)registration may call synchronize_rcu() / block on the defer mutexes and
+ * must not be used inside a read-side section; an online qsbr thread counts as inside one, so the
+ * registered qsbr queuer is offline whenever it is not inside its own explicit section. */
+static void queuer_own_section(struct owner *w)
+{
+	if (!queuer_registered)
+		return;
+#if VP_IS_QSBR
+	rcu_thread_online();
+#endif
+	rcu_read_lock();
+	struct obj *p = rcu_dereference(slots[vp_rand_n(&w->rng, NSLOTS)]);
+	validate(p, "queuer-deref");
+	vp_spin_cycles(vp_rand_n(&w->rng, 2000));
+	validate(p, "queuer-after-delay");
+	rcu_read_unlock();
+#if VP_IS_QSBR
+	rcu_thread_offline();
+#endif
+}
+
 static void *queuer_main(void *arg)
 {
 	struct owner *w = arg;
 	vp_pin(w->idx);
 	struct vp_thr *vt = vp_self();
-	/* never a registered RCU reader: defer_rcu() must not be used inside a read-side
-	 * section, and an online qsbr thread counts as inside one */
+	if (queuer_registered) {
+		rcu_register_thread();
+#if VP_IS_QSBR
+		rcu_thread_offline();
+#endif
+	}
 	phase_of[w->idx] = "register";
 	if (rcu_defer_register_thread())
 		vp_violation("defer-register-failed", "cfg=%s", cfgname);
@@ -293,10 +319,18 @@ static void *queuer_main(void *arg)
 			usleep(vp_rand_n(&w->rng, 400));
 		else if (x < 3000)
 			vp_spin_cycles(vp_rand_n(&w->rng, 3000));
+		else if (x < 3600)
+			queuer_own_section(w);
 	}
 	phase_of[w->idx] = "final-unregister";
 	rcu_defer_unregister_thread();
 	check_all_mine_ran(w, "final rcu_defer_unregister_thread()");
+	if (queuer_registered) {
+#if VP_IS_QSBR
+		rcu_thread_online();
+#endif
+		rcu_unregister_thread();
+	}
 	phase_of[w->idx] = "done";
 	return NULL;
 }
@@ -322,6 +356,7 @@ int main(int argc, char **argv)
 	calls_per_q = vp_arg_long("calls", 100000);
 	reg_cycles_enabled = (int) vp_arg_long("reg-cycles", 1);
 	reclaimer_test = (int) vp_arg_long("reclaimer", 1);
+	queuer_registered = (int) vp_arg_long("queuer-registered", 0);
 	vp_tun_defer_qsize = (unsigned long) vp_arg_long("qsize", 4096);
 	double hookp = vp_arg_double("hook-prob", 0.05);
 	if (n_q > MAX_Q || n_readers > 16 || (vp_tun_defer_qsize & (vp_tun_defer_qsize - 1)) || vp_tun_defer_qsize < 8)
